@@ -70,9 +70,6 @@ def replay_known(ctx, res):
 def run(ctx, res):
     replay_known(ctx, res)
     check_earley(ctx, res)
-    try:
-        import lalrlib
-    except ImportError:
-        lalrlib = None
-    if lalrlib is not None and hasattr(lalrlib, 'check_c08'):
-        lalrlib.check_c08(ctx, res)
+    # LALR clauses: error at the first token the (model) driver cannot consume, accepts() = trial feeding, accepts within expected, no hang
+    from props import c02
+    c02.run(ctx, res, focus='c08')
